@@ -113,13 +113,8 @@ fn stream_cores(ctx: &Ctx, t: &mut Tape<'_>, r: &mut Report) -> CheckResult {
     let bs = suite.info.bs;
     let par = suite.info.par;
     let key = gen_key(t, suite);
-    let iv = match kind {
-        StreamKind::Ctr(w, be) => gen_ctr_iv(t, bs, w, be),
-        _ => {
-            let _ = (t.byte(), t.u32(), t.idx(4));
-            gen_iv(t, bs)
-        }
-    };
+    let c = (suite.keyed)(&key);
+    let iv = gen_stream_iv(t, kind, bs, c.as_ref(), suite.info.has_dec);
     let n = gen_nblocks(t, par, 20);
     let data = tape::gen_bytes(t, n * bs);
     let hops = gen_hops(t, n);
@@ -129,7 +124,6 @@ fn stream_cores(ctx: &Ctx, t: &mut Tape<'_>, r: &mut Report) -> CheckResult {
     r.nontrivial = hops.iter().any(|k| *k > 0 && *k < n);
     r.label_if(hops.len() >= 2, "multi-hop");
     r.d(|| format!("{ty} key={} iv={} n={n} hops={hops:?} kind={ck:?} data={}", tape::hex_short(&key), tape::hex_short(&iv), tape::hex_short(&data)));
-    let c = (suite.keyed)(&key);
     let model = KsModel::new(c.as_ref(), kind, &iv);
     let want = model.apply_at(0, 0, &data);
     let mut cur = f.make_core(Ctor::New, &key, &iv).expect("harness: ctor");
@@ -166,7 +160,8 @@ fn wrappers(ctx: &Ctx, t: &mut Tape<'_>, r: &mut Report) -> CheckResult {
     }
     let bs = suite.info.bs;
     let key = gen_key(t, suite);
-    let iv = gen_iv(t, bs);
+    let kc = (suite.keyed)(&key);
+    let iv = gen_stream_iv(t, kind, bs, kc.as_ref(), suite.info.has_dec);
     let n = gen_nblocks(t, suite.info.par, 12);
     let extra = t.idx(bs); // trailing partial block after the last boundary
     let data = tape::gen_bytes(t, n * bs + extra);
